@@ -334,6 +334,10 @@ add("docs: output statement is never blank", [T("!"), IF(TRUE, [T(" "), O(NIL), 
 add("docs: when marker trims its own block", [CASE(I(1), [[[I(1)], [T("  x")]]], wc=["", "+"], wc_whens=[["", "-"]])], "x")
 add("docs: when marker + keeps whitespace", [CASE(I(1), [[[I(1)], [T("  x")]]], wc=["", "-"], wc_whens=[["", "+"]])], "  x")
 
+add("docs: '-' removes all whitespace up to the end of the template", [O(I(1), wc=["", "-"]), T("\n\n")], "1")
+add("docs: '~' removes trailing newlines at the end of the template", [O(I(1), wc=["", "~"]), T("\r\n\n")], "1")
+add("docs: and binds more tightly than or (with not)", [IF(["or", ["and", TRUE, ["not", FALSE]], TRUE], [T("T")], [T("F")])], "T")
+
 # ---- with / macro / call
 add("docs: with example", [WITH([["a", I(1)], ["b", F("3.4")]], O(a_), T(" + "), O(b_), T(" = "), O(a_, fl("plus", b_))), O(a_)], "1 + 3.4 = 4.4")
 add("docs: with shadows assign", [A("p", S("L")), WITH([["p", S("W")]], O(P("p"))), O(P("p"))], "WL")
